@@ -1140,6 +1140,56 @@ func c08BrokenSync(w *core.WorkerCtx) {
 	}
 }
 
+// c08OrphansUnderTicker: for four ticks of the node's own orphan buffer (eight seconds) a peer keeps sending vertices
+// whose left parent is the current tip of a 500-vertex ledger and whose right parent is unknown: each admission holds
+// the ledger lock while it validates the tip (a walk over the whole ledger) and then parks the vertex, while the ticker
+// pops parked vertices and replays them. Every call must return and the ledger must answer afterwards.
+func c08OrphansUnderTicker(w *core.WorkerCtx) {
+	rng := core.Rand(w.Seed, "C08t", w.Batch)
+	desc := fmt.Sprintf("c08 orphans with a known tip as left parent for four ticks of the real orphan buffer seed=%d batch=%d", w.Seed, w.Batch)
+	w.Mark("%s", desc)
+	world := ledger.NewWorld(rng, w.R, []string{"C08"}, 0, desc)
+	_, err := ledger.Setup(world, ledger.Profile{Nodes: 1, Users: 4, SupplyClass: 0, Delivery: "lockstep"})
+	if err != nil {
+		w.R.Inconc("setup failed: " + err.Error())
+		return
+	}
+	e := &c08env{w: w, world: world, n: world.Nodes[0]}
+	world.Quiet = true
+	for i := 0; i < 500; i++ {
+		t := world.NewTrx(world.Users[0], world.Users[1+i%3].Addr, spice.Melange{SupplementaryCurrency: uint64(1 + i%7)}, nil)
+		world.Propose(e.n, &t, "grow")
+	}
+	tip, _ := e.tipAndAncestors()
+	s, _ := ledger.TakeSnap(e.n.Book)
+	if s == nil {
+		return
+	}
+	tw := s.Live[tip].V.Weight
+	start := time.Now()
+	sent := 0
+	for time.Since(start) < 8500*time.Millisecond && !e.dead {
+		var ghost ledger.H
+		rng.Read(ghost[:])
+		t := world.NewTrx(world.Users[0], world.Users[1+sent%3].Addr, spice.Melange{}, []byte("half an orphan"))
+		v := ledger.ForgeVertex(world.Sealers[sent%2], t, tip, ghost, tw+1, world.Now())
+		e.watch("AddLeaf of a vertex whose right parent is unknown", func() { e.n.Book.AddLeaf(context.Background(), ledger.CloneVertex(&v)) })
+		sent++
+	}
+	if !e.dead {
+		e.watch("CalculateBalance after the orphans", func() { e.n.Book.CalculateBalance(context.Background(), world.Users[1].Addr) })
+	}
+	if !e.dead {
+		e.grow(false)
+	}
+	w.R.Eval(1)
+	w.R.Count("c08_half_orphans_sent_under_the_ticker", sent)
+	w.R.Nontriv(fmt.Sprintf("orphans-under-ticker/wedged=%v", e.dead))
+	if !e.dead {
+		world.Close()
+	}
+}
+
 func c08Worker(w *core.WorkerCtx) {
 	maxN := w.Pick(7, 40)
 	switch w.Batch % 4 {
@@ -1158,6 +1208,7 @@ func c08Worker(w *core.WorkerCtx) {
 		c08CrossTrafficWhileJoining(w)
 		c08FailedBackgroundTruncation(w)
 		c08BrokenSync(w)
+		c08OrphansUnderTicker(w)
 		c08AsyncCancel(w)
 	}
 }
